@@ -309,6 +309,37 @@ func catalogueLog(log []centry) (string, string) {
 	return "", ""
 }
 
+// catalogueBackToBack: the same log applied back to back by ONE thread on node 2, as the zero group's ready loop does
+// when it replays its log at start-up: the allocator gets to run only when the applier blocks, so its loads and
+// unloads trail the entries. The node must end up as the log says, like a node that applied entry by entry.
+func catalogueBackToBack(log []centry) (string, string) {
+	w := newCWorld()
+	defer w.close()
+	n, e := w.addNode(2)
+	if e != "" {
+		return "catalogue-setup", e
+	}
+	var failed string
+	if e := w.run(2, func() {
+		for i, en := range log {
+			if err := n.DM.VerifApply(en.bytes(i)); err != nil {
+				failed = fmt.Sprintf("entry %d %v returned %v", i, en, err)
+				return
+			}
+		}
+	}); e != "" {
+		return "catalogue-apply-fails:back-to-back", fmt.Sprintf("log %v replayed back to back on node 2: %s", log, e)
+	}
+	if failed != "" {
+		return "catalogue-apply-fails:back-to-back", fmt.Sprintf("log %v replayed back to back on node 2: %s", log, failed)
+	}
+	l, e := w.list(n)
+	if e != "" {
+		return "catalogue-list-fails", e
+	}
+	return w.againstModel(n, "replayed back to back", log, l)
+}
+
 // catalogueCut checks one (log, cut) pair with a fresh and a used restoring node.
 func catalogueCut(log []centry, cut int, used bool) (string, string) {
 	w := newCWorld()
